@@ -5,7 +5,7 @@ Import RecordSetNotations.
 
 Ltac dW W := destruct W as [W1 W2 W3 W4 W5 W6 W7 W8 W9 W10 W11 W12 W13].
 
-Lemma winv_init f4 f14 f15 : WInv (rinit f4 f14 f15).
+Lemma winv_init f4 f14 f15 f16 : WInv (rinit f4 f14 f15 f16).
 Proof.
   constructor; unfold closerpc; simpl; try congruence; try discriminate; try (intros; discriminate);
     try (split; congruence); try (intros; split; [lia|intros; lia]).
@@ -94,7 +94,7 @@ Qed.
 Lemma wstep_cl_thr s t p c s1 p' : SInv s -> WInv s -> thr s t = TClose p ->
   cl_step s (OThr t) p c = Some (s1, p') -> WInv (set_t s1 t (TClose p')).
 Proof.
-  intros I W E CL. unfold cl_step in CL.
+  intros I W E CL. unfold cl_step, close_unstarted in CL.
   assert (HK : kl p = true -> hlock s = Some (OThr t)).
   { intros K. apply hl_of_thr; auto. now rewrite E. }
   assert (HN : kl p = false -> hlock s <> Some (OThr t)).
@@ -112,7 +112,7 @@ Lemma wstep_watch s c s' evs : SInv s -> WInv s -> step s (LWatch c) = Some (s',
 Proof.
   intros I W H. unfold step in H. destruct (wat s) eqn:E; try discriminate H.
   5: { (* WClose *)
-    destruct (cl_step s OWatch p c) as [[s1 p']|] eqn:CL; [|discriminate]. unfold cl_step in CL.
+    destruct (cl_step s OWatch p c) as [[s1 p']|] eqn:CL; [|discriminate]. unfold cl_step, close_unstarted in CL.
     assert (HK : kl p = true -> hlock s = Some OWatch).
     { intros K. apply hl_of_wat; auto. now rewrite E. }
     assert (HN : kl p = false -> hlock s <> Some OWatch).
@@ -234,5 +234,5 @@ Proof.
   - eapply step_winv; eauto.
 Qed.
 
-Theorem reachable_winv f4 f14 f15 ls : WInv (run (rinit f4 f14 f15) ls).
+Theorem reachable_winv f4 f14 f15 f16 ls : WInv (run (rinit f4 f14 f15 f16) ls).
 Proof. apply run_inv; [apply sinv_init|apply winv_init]. Qed.
